@@ -32,6 +32,7 @@ open UtilModel UtilModel.RefCount
 
 inductive COp where
   | access | wait | resolve | rwr (cb : Bool)
+  | promise     -- `AddRefPromise` as a step of its own: the harness keeps the promise and reads it at quiescence points
 deriving DecidableEq, Repr, Hashable
 
 inductive CPc where
@@ -87,6 +88,7 @@ inductive CObs where
   | cancelCall (a : Nat)
   | cbinReleased (a : Nat)
   | probeCtx (a m : Nat) (c : Bool)
+  | probeProm (a : Nat) (has : Bool) (v e : Nat)
 deriving DecidableEq, Repr, Hashable
 
 inductive CEv where
@@ -106,6 +108,7 @@ inductive CEv where
   | goRel (a : Nat)
   | goCb (a : Nat)
   | probeCtx (a m : Nat) (c : Bool)
+  | probeProm (a : Nat) (has : Bool) (v e : Nat)
   | probe (v e : Nat)
   | quiesce (B : List Nat)
 deriving DecidableEq, Repr, Hashable
@@ -119,6 +122,7 @@ def CEv.obs : CEv → Option CObs
   | .envCancelCall a => some (.cancelCall a)
   | .goCb a => some (.cbinReleased a)
   | .probeCtx a m c => some (.probeCtx a m c)
+  | .probeProm a h v e => some (.probeProm a h v e)
   | .probe v e => some (.base (.probe v e))
   | .quiesce B => some (.base (.quiesce B))
   | _ => none
@@ -136,7 +140,7 @@ def hook (c : Con) (nonce : Nat) (res : Bool) (v e : Nat) : Con :=
     if res ≠ c.cres ∨ v ≠ c.cv ∨ e ≠ c.ce then
       { c with cres := res, cv := v, ce := e, cnonce := c.cnonce + 1, bc := c.bc.broadcast }
     else c
-  | .wait | .resolve =>
+  | .wait | .resolve | .promise =>
     -- 171-177
     { c with prom := if res then some (v, e) else none }
   | .rwr _ =>
@@ -182,7 +186,7 @@ def Con.quiet (c : Con) : Bool :=
   (match c.pc with
    | .incb _ _ _ ch => !(c.bc.closed ch && !c.wcancel)
    | .waiting _ ch => !c.bc.closed ch && !c.cancelled
-   | .awaiting => c.prom.isNone && !c.cancelled
+   | .awaiting => c.op == .promise || (c.prom.isNone && !c.cancelled)
    | .returned => true
    | _ => false) &&
   (c.go == .none || c.go == .done)
@@ -295,7 +299,7 @@ def cstep (s : CSt) : CEv → Option CSt
   | .await a =>
     match getCon s a with
     | some c =>
-      if c.pc = .awaiting ∧ unlockedFor s.b (.thr a) then
+      if c.pc = .awaiting ∧ c.op ≠ .promise ∧ unlockedFor s.b (.thr a) then
         match c.prom with
         | some (v, e) =>
           if e ≠ 0 then exitRel s a c v e
@@ -306,7 +310,7 @@ def cstep (s : CSt) : CEv → Option CSt
   | .awaitCancel a =>
     match getCon s a with
     | some c =>
-      if c.pc = .awaiting ∧ c.cancelled then exitRel s a c 0 9 else none
+      if c.pc = .awaiting ∧ c.op ≠ .promise ∧ c.cancelled then exitRel s a c 0 9 else none
     | none => none
   | .ret a v e =>
     match getCon s a with
@@ -354,6 +358,14 @@ def cstep (s : CSt) : CEv → Option CSt
       match c.pc with
       | .incb m' _ _ _ => if m = m' ∧ cc = (c.wcancel || c.cancelled) ∧ cquiescent s then some s else none
       | _ => none
+    | none => none
+  | .probeProm a has v e =>
+    -- the harness reads the promise container of an `AddRefPromise` step (non-blocking) right before
+    -- it logs a quiescence point
+    match getCon s a with
+    | some c =>
+      if c.op = .promise ∧ c.pc = .awaiting ∧ c.prom = (if has then some (v, e) else none) ∧ cquiescent s then some s
+      else none
     | none => none
   | .probe v e => if cquiescent s ∧ v = s.b.target ∧ e = s.b.targetErr then some s else none
   | .quiesce B => if cquiescent s ∧ B = cpendingIds s then some s else none
@@ -405,6 +417,7 @@ def cevsOf (s : CSt) : CObs → List CEv
   | .cancelCall a => [.envCancelCall a]
   | .cbinReleased a => [.goCb a]
   | .probeCtx a m c => [.probeCtx a m c]
+  | .probeProm a h v e => [.probeProm a h v e]
 
 def cmodel : OLTS CSt CEv CObs where
   init := {}
@@ -419,6 +432,7 @@ def parseOp : List String → Option COp
   | ["resolve"] => some .resolve
   | ["rwr", "1"] => some (.rwr true)
   | ["rwr", "0"] => some (.rwr false)
+  | ["promise"] => some .promise
   | _ => none
 
 def CObs.parse : List String → Option CObs
@@ -426,12 +440,14 @@ def CObs.parse : List String → Option CObs
   | ["inv", a, "wait"] => do pure (.inv (← a.toNat?) .wait)
   | ["inv", a, "resolve"] => do pure (.inv (← a.toNat?) .resolve)
   | ["inv", a, "rwr", c] => do pure (.inv (← a.toNat?) (.rwr (← parseBit c)))
+  | ["inv", a, "promise"] => do pure (.inv (← a.toNat?) .promise)
   | ["cbin", "access", a, m, v] => do pure (.cbin (← a.toNat?) (← m.toNat?) (← v.toNat?))
   | ["cbout", "access", a, m, r] => do pure (.cbout (← a.toNat?) (← m.toNat?) (← r.toNat?))
   | ["ret", a, "cons", v, e] => do pure (.ret (← a.toNat?) (← v.toNat?) (← e.toNat?))
   | ["env", "cancelcall", a] => do pure (.cancelCall (← a.toNat?))
   | ["cbin", "released", a] => do pure (.cbinReleased (← a.toNat?))
   | ["probe", "accessctx", a, m, c] => do pure (.probeCtx (← a.toNat?) (← m.toNat?) (← parseBit c))
+  | ["probe", "promise", a, h, v, e] => do pure (.probeProm (← a.toNat?) (← parseBit h) (← v.toNat?) (← e.toNat?))
   | l => (Obs.parse l).map .base
 
 end UtilModel.RefCount.Cons
